@@ -19,6 +19,8 @@ import viewcmp
 SHAPES = [
     # (looms: [(ncpus, [threads per proc])])
     [(1, [2])], [(2, [2])], [(2, [3])], [(2, [2, 1])], [(3, [2, 2])], [(1, [1])], [(2, [2]), (1, [2])],
+    # several processes in each of several looms (remote affinity across processes)
+    [(2, [1, 1]), (2, [1, 1])], [(2, [2, 1]), (3, [1, 2])], [(3, [1, 1, 1])],
 ]
 MODEL_SETS = ["V", "6", "D", "M", "T", "P", "K", "V6DMTPK", "V6DMTPK", "VK", "6M", "DTP", "VM"]
 
@@ -44,8 +46,12 @@ def make_desc(rng, shape):
         elif place == "random":
             rng.shuffle(rlist)
     rk = 0
+    # thread ids are only unique inside a node: now and then every loom numbers its threads from the same id
+    tid0, same_tids = tid, rng.random() < 0.3
     for li, (ncpus, procs) in enumerate(shape):
         ps = []
+        if same_tids:
+            tid = tid0
         for nt in procs:
             p = {"pid": pid, "appid": 1 + (pid % 3), "threads": list(range(tid, tid + nt))}
             if ranks:
@@ -76,7 +82,8 @@ def gen_case(chk, i):
     if rng.random() < 0.5:
         marks = {rng.randint(0, 99): "single", rng.randint(0, 99): "stack"}
     tie = (i % 5 == 4)
-    g = histgen.Gen(rng, desc, enabled, marks, unique_clocks=not tie)
+    # one history in four moves threads about a lot more than it does anything else
+    g = histgen.Gen(rng, desc, enabled, marks, unique_clocks=not tie, weights=dict(aff=12, state=4) if i % 4 == 1 else None)
     g.run(rng.choice([60, 150, 300]))
     lint = rng.random() < 0.5
     hist = g.finish(close_regions=lint)
